@@ -5,8 +5,8 @@ import (
 	"encoding/json"
 	"strings"
 
-	"github.com/vektah/gqlparser/v2"
 	"github.com/99designs/gqlgen/graphql"
+	"github.com/vektah/gqlparser/v2"
 
 	"github.com/vektah/gqlparser/v2/ast"
 
